@@ -2,6 +2,7 @@ package stableconc
 
 import (
 	"bytes"
+	"strings"
 	"fmt"
 	"sort"
 	"sync"
@@ -26,7 +27,7 @@ func prefixSources(prefix string, src map[string]string, names []string) (map[st
 	// file names are made unique per case so that hook events can be attributed; imports are rewritten.
 	out := map[string]string{}
 	for n, s := range src {
-		for _, other := range names {
+		for other := range src {
 			s = replaceImport(s, other, prefix+other)
 		}
 		out[prefix+n] = s
@@ -110,6 +111,36 @@ func TestC05(t *testing.T) {
 					src[nme] = gen.InjectImports(src[nme], wk[:k])
 				}
 			}
+		}
+		if i%6 == 5 {
+			// fan-out below a public re-export: many files reach the same symbols of base.proto through reexp.proto
+			shape = "public-reexport-fan-out"
+			src = map[string]string{}
+			var sb strings.Builder
+			sb.WriteString("syntax = \"proto3\";\npackage fan.base;\n")
+			nb := rng.Range(3, 10)
+			for b := 0; b < nb; b++ {
+				fmt.Fprintf(&sb, "message B%d { int32 v = 1; }\nenum E%d { E%d_ZERO = 0; }\n", b, b, b)
+			}
+			src["fan/base.proto"] = sb.String()
+			src["fan/reexp.proto"] = "syntax = \"proto3\";\npackage fan.re;\nimport public \"fan/base.proto\";\nmessage R { fan.base.B0 b = 1; }\n"
+			names = nil
+			for d := 0; d < rng.Range(4, 14); d++ {
+				sb.Reset()
+				fmt.Fprintf(&sb, "syntax = \"proto3\";\npackage fan.d%d;\nimport \"fan/reexp.proto\";\nmessage D%d {\n", d, d)
+				for f := 1; f <= rng.Range(2, 30); f++ {
+					if rng.Bool() {
+						fmt.Fprintf(&sb, "  fan.base.B%d f%d = %d;\n", rng.Intn(nb), f, f)
+					} else {
+						fmt.Fprintf(&sb, "  .fan.base.E%d f%d = %d;\n", rng.Intn(nb), f, f)
+					}
+				}
+				sb.WriteString("}\n")
+				n := fmt.Sprintf("fan/d%d.proto", d)
+				src[n] = sb.String()
+				names = append(names, n)
+			}
+			sort.Strings(names)
 		}
 		prefix := fmt.Sprintf("k%d/", caseCtr.Add(1))
 		psrc, pnames := prefixSources(prefix, src, names)
